@@ -315,3 +315,341 @@ def replay_layout_probes(workdir):
     with open(os.path.join(workdir, 'README.txt'), 'w') as f:
         f.write('qmluic generate-ui Probe<i>.qml for each probe; failed: %s\n' % failed)
     return bool(failed), {'failed_probes': failed}
+
+
+# ================================================================================================ C19
+def c19_color(fns, consts):
+    import os
+    obs = []
+    # --- keyword table ----------------------------------------------------------------------------------
+    ob = _ob('c19_mir_svg_table', 'color::SVG_NAMED_COLORS::{closure#0} + color::ColorRgb8::new',
+             'the whole initialiser (147 rows), every keyword string (z3 string variable)',
+             'as a map keyword -> (r,g,b) the table equals the SVG 1.1 colour keyword table (data/svg_colors.txt); later duplicates win as in HashMap::from')
+    t0 = time.time()
+    bad = []
+    try:
+        new_fn = M.find_fn(fns, r'impl at src/color\.rs.*>::new$|^ColorRgb8::new$') if False else None
+        cands = [f for n, f in fns.items() if n.endswith('::new') and '-> ColorRgb8' in f.header]
+        if len(cands) != 1:
+            raise M.MirError(f'{len(cands)} candidates for ColorRgb8::new')
+        new_fn = cands[0]
+
+        def model(c, it):
+            if c.callee.endswith('ColorRgb8::new') and len(c.args) == 3:
+                sub = M.Interp(new_fn, consts, arg_values={'_1': c.args[0], '_2': c.args[1], '_3': c.args[2]})
+                ps = [p for p in sub.run() if p.end == 'return']
+                if len(ps) != 1 or not isinstance(ps[0].ret, M.Adt) or not ps[0].ret.names:
+                    raise M.MirError('ColorRgb8::new is not a plain struct literal')
+                return ps[0].ret
+            return None
+        fn = M.find_fn(fns, r'^SVG_NAMED_COLORS::\{closure#0\}$')
+        it = M.Interp(fn, consts, call_model=model)
+        ps = [p for p in it.run() if p.end == 'return']
+        if len(ps) != 1:
+            raise M.MirError(f'{len(ps)} paths')
+        froms = [c for c in ps[0].calls if 'From<' in c.callee or c.callee.endswith('::from')]
+        if len(froms) != 1 or not isinstance(froms[0].args[0], M.Tup):
+            raise M.MirError('table is not built by one HashMap::from(array)')
+        rows = []
+        for e in froms[0].args[0].items:
+            if not (isinstance(e, M.Tup) and len(e.items) == 2 and isinstance(e.items[0], tuple) and isinstance(e.items[1], M.Adt)):
+                raise M.MirError(f'row {e!r}')
+            rgb = e.items[1]
+            rows.append((e.items[0][1], rgb.field('red'), rgb.field('green'), rgb.field('blue')))
+        ref = []
+        with open(os.path.join(C.VERIF, 'data', 'svg_colors.txt')) as f:
+            for ln in f:
+                if ln.strip() and not ln.startswith('#'):
+                    n, r, g, b = ln.split()
+                    ref.append((n, int(r), int(g), int(b)))
+        s = z3.String('keyword')
+
+        def lookup(table):
+            v = z3.IntVal(-1)
+            for (n, r, g, b) in table:          # later rows end up outermost: they win
+                packed = (r * 65536 + g * 256 + b) if not isinstance(r, int) else z3.IntVal(r * 65536 + g * 256 + b)
+                v = z3.If(s == z3.StringVal(n), packed, v)
+            return v
+        ranges = []
+        for (n, r, g, b) in rows:
+            for ch in (r, g, b):
+                ranges.append(z3.And(ch >= 0, ch <= 255))
+        _unsat([z3.Not(z3.And(ranges))], bad, 'a channel constant is outside 0..255')
+        res = _unsat([lookup(rows) != lookup(ref)], bad, 'keyword table differs from SVG 1.1')
+        if res is False:
+            # name the offending keyword (from the model) for the replay
+            r = M.check([lookup(rows) != lookup(ref)])
+            kw = r[1].eval(s, model_completion=True).as_string()
+            ob['keyword'] = kw
+            got = [x for x in rows if x[0] == kw]
+            want = [x for x in ref if x[0] == kw]
+            ob['got'] = [str(z3.simplify(v)) if z3.is_expr(v) else v for v in (got[-1][1:] if got else ())]
+            ob['want'] = list(want[-1][1:]) if want else None
+        if len(rows) != 147:
+            bad.append(f'{len(rows)} rows, SVG 1.1 has 147 keywords')
+        ob['detail'] = f'{len(rows)} rows evaluated from MIR constants'
+    except M.MirError as e:
+        obs.append(_finish(ob, t0, [f'MIR not interpretable: {e}'], unknown=True))
+    else:
+        obs.append(_finish(ob, t0, bad, unknown=any(b.startswith('UNKNOWN') for b in bad)))
+
+    # --- dispatch of Color::from_str -----------------------------------------------------------------------
+    ob = _ob('c19_mir_from_str_dispatch', 'color::<impl FromStr for Color>::from_str', 'all paths of the function (calls uninterpreted)',
+             "'#'-prefixed strings go to parse_hex_color (None -> InvalidHex); 'transparent' (ASCII case-insensitive) -> rgba(0,0,0,0); otherwise exact "
+             'then lower-cased keyword lookup -> opaque Rgb8 of the table entry; everything else -> UnknownName (rejected, never guessed)')
+    t0 = time.time()
+    bad = []
+    try:
+        fn = M.find_fn(fns, r'src/color\.rs.*>::from_str$')
+        it = M.Interp(fn, consts)
+        ps = [p for p in it.run() if p.end == 'return']
+        kinds = []
+        for p in ps:
+            names = [c.callee.split('::')[-1] for c in p.calls]
+            r = p.ret
+            def arg_is(c, i, what):
+                a = c.args[i]
+                return it.name_of(a) == what or (isinstance(a, M.Call) and a.callee.endswith(what)) or (isinstance(a, tuple) and a[1] == what)
+            if 'parse_hex_color' in names:
+                sp = [c for c in p.calls if c.callee.endswith('strip_prefix')]
+                hx = [c for c in p.calls if c.callee.endswith('parse_hex_color')][0]
+                ok = (len(sp) == 1 and sp[0].args[1] == ('char', '#') and isinstance(r, M.Call) and r.callee.endswith('ok_or')
+                      and r.args[0] is hx and isinstance(r.args[1], M.Adt) and r.args[1].path.endswith('InvalidHex')
+                      and it.name_of(hx.args[0]) == sp[0].name + '@Some.0')
+                kinds.append('hex')
+                if not ok:
+                    bad.append('hex path: not `strip_prefix(\'#\') -> parse_hex_color(rest).ok_or(InvalidHex)`')
+            elif 'rgba8' in names:
+                c = [c for c in p.calls if c.callee.endswith('rgba8')][0]
+                eq = [c2 for c2 in p.calls if c2.callee.endswith('eq_ignore_ascii_case')]
+                zeros = all(z3.is_int_value(a) and a.as_long() == 0 for a in c.args)
+                ok = (zeros and len(c.args) == 4 and len(eq) == 1 and eq[0].args[1] == ('str', 'transparent')
+                      and isinstance(r, M.Adt) and r.path.endswith('::Ok') and r.fields[0] is c)
+                kinds.append('transparent')
+                if not ok:
+                    bad.append("transparent path: not `eq_ignore_ascii_case(src, \"transparent\") -> Ok(rgba8(0,0,0,0))`")
+            elif isinstance(r, M.Adt) and r.path.endswith('::Ok'):
+                v = r.fields[0]
+                gets = [c for c in p.calls if c.callee.endswith('::get')]
+                ok = isinstance(v, M.Adt) and v.path.endswith('Color::Rgb8') and gets and it.name_of(v.fields[0]) == gets[-1].name + '@Some.0.*'
+                lower = 'to_ascii_lowercase' in names
+                kinds.append('keyword-lower' if lower else 'keyword-exact')
+                if not ok:
+                    bad.append('keyword path does not return Ok(Rgb8(<table entry>))')
+                if lower:
+                    lc = [c for c in p.calls if c.callee.endswith('to_ascii_lowercase')][0]
+                    if it.name_of(lc.args[0]) != '_1':
+                        bad.append('lower-casing is not applied to the input string')
+            elif isinstance(r, M.Adt) and r.path.endswith('::Err'):
+                kinds.append('unknown')
+                if not (isinstance(r.fields[0], M.Adt) and r.fields[0].path.endswith('UnknownName')):
+                    bad.append('fallback is not Err(UnknownName)')
+                if len([c for c in p.calls if c.callee.endswith('::get')]) != 2:
+                    bad.append('unknown-name path does not try both lookups')
+            else:
+                bad.append(f'unexpected path returning {r!r}')
+        if sorted(kinds) != sorted(['hex', 'transparent', 'keyword-exact', 'keyword-lower', 'unknown']):
+            bad.append(f'paths: {sorted(kinds)}')
+        ob['detail'] = f'paths: {sorted(kinds)}'
+    except M.MirError as e:
+        obs.append(_finish(ob, t0, [f'MIR not interpretable: {e}'], unknown=True))
+    else:
+        obs.append(_finish(ob, t0, bad))
+    return obs
+
+
+def replay_color_keyword(keyword, want, workdir):
+    """CLI replay: QColor-typed property bound to the keyword; compare the <color> element with the SVG value"""
+    import os
+    from ..tv import driver as D
+    text = f'import qmluic.QtWidgets\nQWidget {{\n  QGraphicsView {{ backgroundBrush.color: "{keyword}" }}\n}}\n'
+    os.makedirs(workdir, exist_ok=True)
+    r = D.run_cli(C.build_native(), workdir, text, 'Color')
+    if r.ui is None:
+        got = 'rejected: ' + r.stderr.strip()[:200]
+        rgb = None
+    else:
+        ch = {k: re.search(rf'<{k}>(\d+)</{k}>', r.ui) for k in ('red', 'green', 'blue')}
+        rgb = [int(ch[k].group(1)) for k in ('red', 'green', 'blue')] if all(ch.values()) else None
+        got = rgb
+    info = {'document': text, 'keyword': keyword, 'expected': want, 'actual': got}
+    with open(os.path.join(workdir, 'README.txt'), 'w') as f:
+        f.write(f'qmluic generate-ui Color.qml ; <color> of "{keyword}": expected {want}, got {got}\n')
+    if want is None:
+        return r.ui is not None, info        # a keyword SVG does not have must be rejected
+    return rgb != list(want), info
+
+
+# ================================================================================================ C01 / C03
+def ceval_divrem(fns, consts):
+    """operand order and primitive selection of the integer / % folds at full width, and of all float folds"""
+    obs = []
+    ob = _ob('ceval_mir_arith_dispatch', 'tir::ceval::eval_binary_arith_expression (MIR) + <BinaryArithOp as Display>::fmt',
+             'all operand values (primitives checked_*/IEEE ops left uninterpreted => full 64-bit width)',
+             'on (Integer, Integer) each operator calls its own checked_* primitive on (left, right) in this order and None becomes IntegerOverflow; '
+             'on (Float, Float) each operator applies its own IEEE operation to (left, right) in this order')
+    t0 = time.time()
+    bad = []
+    try:
+        # discriminant -> operator symbol, from the Display impl of the same enum
+        disp = [f for n, f in fns.items() if n.endswith('::fmt') and '&BinaryArithOp' in f.header
+                and any('const "+"' in l for b in f.blocks.values() for l in b)]
+        if len(disp) != 1:
+            raise M.MirError(f'{len(disp)} Display impls for BinaryArithOp')
+        dt = M.Interp(disp[0], consts)
+        sym = {}
+        for p in dt.run():
+            if p.end != 'return':
+                continue
+            strs = [v[1] for v in p.env.values() if isinstance(v, tuple) and v[0] == 'str' and v[1] in '+-*/%' and len(v[1]) == 1]
+            dvals = []
+            for c in p.pc:
+                m = re.fullmatch(r'(\S+) == (\d+)', str(c))
+                if m:
+                    dvals.append(int(m.group(2)))
+            if len(strs) == 1 and len(dvals) == 1:
+                sym[dvals[0]] = strs[0]
+        if sorted(sym.values()) != sorted('+-*/%'):
+            raise M.MirError(f'cannot recover operator symbols from Display: {sym}')
+        fn = M.find_fn(fns, r'^eval_binary_arith_expression$')
+        it = M.Interp(fn, consts)
+        paths = [p for p in it.run(max_paths=2000) if p.end == 'return']
+        li, ri = it.leaf('_2@Integer.0', 'i64'), it.leaf('_3@Integer.0', 'i64')
+        lf, rf = it.leaf('_2@Float.0', 'f64'), it.leaf('_3@Float.0', 'f64')
+        opd = it.leaf('_1.discr', 'isize')
+        want_int = {'+': 'checked_add', '-': 'checked_sub', '*': 'checked_mul', '/': 'checked_div', '%': 'checked_rem'}
+        seen_int, seen_f = set(), set()
+        frem = z3.Function('frem', z3.Float64(), z3.Float64(), z3.Float64())
+        for p in paths:
+            tr = '\n'.join(p.trace)
+            if ' as Integer).0' in tr:
+                prim = [c for c in p.calls if re.search(r'::checked_\w+$', c.callee)]
+                if len(prim) != 1:
+                    bad.append(f'integer path with {len(prim)} checked_* calls')
+                    continue
+                c = prim[0]
+                # which operator does this path belong to?
+                s = z3.Solver()
+                s.add(*p.pc)
+                ops = [k for k in sym if s.check(opd == k) == z3.sat]
+                if len(ops) != 1:
+                    bad.append(f'integer path for operators {ops}')
+                    continue
+                o = sym[ops[0]]
+                seen_int.add(o)
+                if c.callee.split('::')[-1] != want_int[o]:
+                    bad.append(f"'{o}' on integers calls {c.callee.split('::')[-1]} instead of {want_int[o]}")
+                if not (z3.is_expr(c.args[0]) and z3.is_expr(c.args[1])):
+                    bad.append(f"'{o}': operands are not the two payloads")
+                else:
+                    _unsat([li != ri, z3.Or(c.args[0] != li, c.args[1] != ri)], bad, f"'{o}' on integers is applied to ({c.args[0]}, {c.args[1]}) instead of (left, right)")
+                r = p.ret
+                ok = isinstance(r, M.Call) and r.callee.endswith('ok_or') and isinstance(r.args[1], M.Adt) and r.args[1].path.endswith('IntegerOverflow') \
+                    and isinstance(r.args[0], M.Call) and r.args[0].callee.endswith('::map') and r.args[0].args[0] is c
+                if not ok:
+                    bad.append(f"'{o}': result is not checked(l, r).map(Integer).ok_or(IntegerOverflow)")
+            elif ' as Float).0' in tr:
+                s = z3.Solver()
+                s.add(*p.pc)
+                ops = [k for k in sym if s.check(opd == k) == z3.sat]
+                if len(ops) != 1:
+                    bad.append(f'float path for operators {ops}')
+                    continue
+                o = sym[ops[0]]
+                seen_f.add(o)
+                r = p.ret
+                val = r.fields[0].fields[0] if isinstance(r, M.Adt) and r.path.endswith('::Ok') and isinstance(r.fields[0], M.Adt) and r.fields[0].path.endswith('ConstantValue::Float') else None
+                if val is None or not z3.is_fp(val):
+                    bad.append(f"'{o}' on doubles does not return Ok(Float(..))")
+                    continue
+                # structural comparison with the IEEE operation on (left, right); % uses an uninterpreted symbol
+                exp = {'+': z3.fpAdd(z3.RNE(), lf, rf), '-': z3.fpSub(z3.RNE(), lf, rf), '*': z3.fpMul(z3.RNE(), lf, rf),
+                       '/': z3.fpDiv(z3.RNE(), lf, rf), '%': z3.fpRem(lf, rf)}[o]
+                if not z3.eq(z3.simplify(val), z3.simplify(exp)):
+                    bad.append(f"'{o}' on doubles computes {val} instead of the IEEE operation on (left, right)")
+        if seen_int != set('+-*/%'):
+            bad.append(f'integer operators seen: {sorted(seen_int)}')
+        if seen_f != set('+-*/%'):
+            bad.append(f'double operators seen: {sorted(seen_f)}')
+        ob['detail'] = f'operator symbols from Display: {sym}; {len(paths)} returning paths'
+    except M.MirError as e:
+        obs.append(_finish(ob, t0, [f'MIR not interpretable: {e}'], unknown=True))
+    else:
+        obs.append(_finish(ob, t0, bad, unknown=any(b.startswith('UNKNOWN') for b in bad)))
+    return obs
+
+
+def replay_ceval(workdir):
+    """CLI replay for refutations of the fold dispatch: constant expressions on both sides of the interesting
+    asymmetries (non-commutative operators, negative dividends), read back from the .ui"""
+    import os
+    from ..tv import driver as D
+    os.makedirs(workdir, exist_ok=True)
+    q = C.build_native()
+    probes = [('17 + 5', 22), ('17 - 5', 12), ('17 * 5', 85), ('17 / 5', 3), ('17 % 5', 2), ('-17 / 5', -3), ('-17 % 5', -2), ('5 - 17', -12), ('5 / 17', 0), ('5 % 17', 5),
+              ('9223372036854775807 + 1', None), ('1 / 0', None), ('1 % 0', None), ('(-9223372036854775807 - 1) / -1', None)]
+    fprobes = [('7.5 + 2.0', 9.5), ('7.5 - 2.0', 5.5), ('7.5 * 2.0', 15.0), ('7.5 / 2.0', 3.75), ('7.5 % 2.0', 1.5), ('2.0 - 7.5', -5.5), ('2.0 / 8.0', 0.25), ('2.0 % 7.5', 2.0)]
+    failed = []
+    for i, (e, want) in enumerate(probes + fprobes):
+        isf = (e, want) in fprobes
+        cls, prop = ('QDoubleSpinBox', 'maximum') if isf else ('QSpinBox', 'maximum')
+        text = f'import qmluic.QtWidgets\nQWidget {{\n  {cls} {{ {prop}: {e} }}\n}}\n'
+        r = D.run_cli(q, workdir, text, f'Fold{i}')
+        if want is None:
+            if r.rc == 0:
+                failed.append({'expression': e, 'expected': 'rejected', 'actual': 'accepted'})
+            continue
+        if r.ui is None:
+            failed.append({'expression': e, 'expected': want, 'actual': 'rejected: ' + r.stderr.strip()[:100]})
+            continue
+        m = re.search(r'<property name="maximum">\s*<\w+>([^<]*)<', r.ui)
+        got = float(m.group(1)) if m else None
+        if got != float(want):
+            failed.append({'expression': e, 'expected': want, 'actual': got})
+    with open(os.path.join(workdir, 'README.txt'), 'w') as f:
+        f.write('qmluic generate-ui Fold<i>.qml; failed: %s\n' % failed)
+    return bool(failed), {'failed_probes': failed}
+
+
+def merge(res, obs, cov, replay, site):
+    """adds MIR obligations to a proof-style coverage dict `cov`; refuted ones are replayed through `replay(ob)`
+    -> (reproduced, info, key) before being reported"""
+    cov.setdefault('obligations', 0)
+    cov.setdefault('discharged', 0)
+    cov.setdefault('samples', [])
+    known = cov.setdefault('known_finding_obligations', [])
+    for ob in obs:
+        if ob['result'] == 'holds':
+            cov['obligations'] += 1
+            cov['discharged'] += 1
+        elif ob['result'] == 'inconclusive':
+            cov['obligations'] += 1
+            res.inconc(f"{ob['name']}: {ob['detail'][:400]}")
+        else:
+            d = C.new_replay_dir(res.prop, ob['name'])
+            rep, info, key = replay(ob, d)
+            ob['replay'] = info
+            if rep:
+                new = res.violation(key, f"{ob['name']} ({ob['function']}): {ob['detail'][:600]}\nreplay through the CLI: {str(info)[:600]}", d)
+                if not new:
+                    ob['decided_as'] = 'known finding'
+                    known.append(ob)
+                else:
+                    cov['obligations'] += 1
+            else:
+                cov['obligations'] += 1
+                res.inconc(f"{ob['name']}: refuted on the MIR ({ob['detail'][:300]}) but the CLI replay did not reproduce it: {str(info)[:300]}")
+        cov['samples'].append(ob)
+    fe = cov.get('functions_encoded', [])
+    if isinstance(fe, list):
+        cov['functions_encoded'] = sorted(set(fe) | set(o['function'] for o in obs))
+    cov.setdefault('trusted_base', [])
+    for t in ('rustc nightly MIR pretty-printer', 'vlib/mir.py symbolic MIR interpreter', 'z3'):
+        if t not in cov['trusted_base']:
+            cov['trusted_base'].append(t)
+    cov['checker_cmd'] = cov.get('checker_cmd', '') + ' ; cargo +nightly rustc -- -Zunpretty=mir + vlib/mir.py + z3'
+
+
+def load():
+    text = M.dump_mir()
+    return M.parse_functions(text), M.parse_consts(text)
